@@ -4,6 +4,7 @@ import AdaVerif.Model.AggLayout
 import AdaVerif.Model.UrlRec
 import AdaVerif.Model.Encode
 import AdaVerif.Model.AggSetters
+import AdaVerif.Model.UrlSetters
 /- agg.edit <state> <editor> <hexarg> : apply one Model editor to a buffer-with-offsets state.
    state = buf,pe,ue,hs,he,port,ps,ss,hh,opq   (hex buffer, decimal offsets, '-' = omitted) -/
 namespace Driver
@@ -113,6 +114,36 @@ def cmdUrlModel (a : List String) : String :=
     let viaLayout := (layout (Model.UrlRec.toL r))
     s!"href={hexs (Model.UrlRec.getHref r)} size={Model.UrlRec.getHrefSize r} comps={c.pe},{c.ue},{c.hs},{c.he},{x c.port},{c.ps},{x c.ss},{x c.hh} " ++
     s!"layout={hexs viaLayout.buf} shape={if shapeB viaLayout then 1 else 0}"
+  | _ => "bad-op"
+
+/-- url.set <op> <L|-> <ty> <scheme> <special> <user> <pass> <host|!> <port|-> <path> <query|!> <hash|!> <opq> <value> :
+    the Lean model of an `ada::url` setter (Model/UrlSetters.lean) on the given field values; answers the new field
+    values in the same format and the setter's return value -/
+def cmdUrlSet (a : List String) : String :=
+  match a with
+  | [op, lim, ty, scheme, special, user, pass, host, port, path, query, hash, opq, value] =>
+    let optB (s : String) : Option Bytes := if s == "!" then none else some (unhexs s)
+    let r : Model.UrlRec.Rec := Model.UrlRec.Rec.mk (unhexs scheme) (special == "1") (unhexs user) (unhexs pass) (optB host) (optNat port)
+      (unhexs path) (optB query) (optB hash) (opq == "1")
+    let L := (optNat lim).getD 4294967295
+    let t := natArg ty
+    let v := unhexs value
+    let dflt := (Spec.defaultPort r.scheme).getD 0
+    let res : Option (Model.UrlRec.Rec × Bool) :=
+      match op with
+      | "set_username" => some (Model.UrlRec.setUsernameR L t r v)
+      | "set_password" => some (Model.UrlRec.setPasswordR L t r v)
+      | "set_port" => some (Model.UrlRec.setPortR L t dflt r v)
+      | "set_hash" => some (Model.UrlRec.setHashR L r v, true)
+      | "set_search" => some (Model.UrlRec.setSearchR L r v, true)
+      | "set_pathname" => some (Model.UrlRec.setPathnameR L t r v)
+      | _ => none
+    match res with
+    | none => "bad-op"
+    | some (r', ok) =>
+      let o (x : Option Bytes) : String := match x with | some b => hexs b | none => "!"
+      s!"{hexs r'.scheme} {if r'.special then 1 else 0} {hexs r'.username} {hexs r'.password} {o r'.host} {showOpt r'.port} " ++
+      s!"{hexs r'.path} {o r'.query} {o r'.hash} {if r'.opq then 1 else 0} r={if ok then 1 else 0}"
   | _ => "bad-op"
 
 end Driver
